@@ -16,7 +16,7 @@ const ruleC04 = "C01 (path, document) pairs with the weight shifted to filters c
 	"Non-trivial: the path contains a filter that is evaluated on a non-empty container. Distinct = distinct (path, document, mode, accessor)."
 
 func drawC04(rt *rapid.T) *Case {
-	g := gen.NewG(rt, gen.PathOpts{Funcs: true, RootOmit: true, FuncPct: 20, OperandFuncPct: 15, FilterHeavy: true})
+	g := gen.NewG(rt, gen.PathOpts{Funcs: true, RootOmit: true, FuncPct: 20, OperandFuncPct: 15, FilterHeavy: true, LongPaths: true})
 	p := g.Path()
 	r := gen.Render(p, gen.Canon)
 	c := &Case{Path: r.Text, AST: p, Doc: g.Doc(p), UseNumber: rapid.Bool().Draw(rt, "usenumber"), Funcs: true, Accessor: gen.Uniform(rt, "accessor", 3) == 0}
